@@ -172,8 +172,26 @@ def lhss(names=NAMES, offs=LHS_OFFS):
     return [(n, o) for n in names for o in offs]
 
 
+# spellings that are NOT keywords or function names but are close to one (case, affixes): all are ordinary names
+NAME_SHAPES = ['IS', 'AS', 'IN', 'OR', 'NOT', 'AND', 'IF', 'Else', 'Lambda', 'TRUE', 'true', 'none', 'NONE', 'false', 'is_', 'in2', '_or', 'Or', 'E', 'e', 'T', 't_', 'EXP', 'Max', 'MIN',
+               'Log', 'log1', 'np_', 'NP', 'Self', 'notX', 'ifelse', 'For', 'DEL', 'Pass', 'Yield_', 'exp_', 'abs1', 'maxi']
+
+
+def name_shape_programs():
+    for nm in NAME_SHAPES:
+        for k in KINDS:
+            for o in (None, -2, 2):
+                yield [(('Y', None), [(nm, k, o)])], False
+                yield [(('Y', None), [(nm, k, o), ('X', 'v', -1)])], False
+                yield [(('Y', None), [('X', 'v', 1), (nm, k, o)])], False
+        yield [((nm, None), [('X', 'v', -2)])], False
+        yield [((nm, 1), [(nm, 'v', -1), ('X', 'v', None)])], False
+
+
 def program_space(tier):
     M, L = mentions(), lhss()
+    for x in name_shape_programs():
+        yield x
     # 1 equation, 1 and 2 RHS mentions
     for l in L:
         for m in M:
